@@ -200,6 +200,8 @@ def run_property(prop, tier, seed):
     eng.frame_report = {}
     eng.dead_under_contract = {}
     eng.executed_nodes = set()
+    eng.executed_all = set()
+    eng.inlined_functions = {}
     problems = R.check_attached(repo)
     if problems:
         for p in problems:
@@ -322,6 +324,16 @@ def run_property(prop, tier, seed):
         print(f'CHECKER-ERROR {o.id}: {o.raw}')
     for r in out_of_reach:
         print(f'OUT-OF-REACH {r["function"]}: {r["reason"]}')
+    inlined_dead = {}
+    for q, fi in sorted(eng.inlined_functions.items()):
+        if q in eng.dead_under_contract or q in R.contracts and q in roots:
+            continue
+        d = eng.unreached_lines(fi, eng.executed_all)
+        if d:
+            inlined_dead[q] = sorted(set(d))
+    if os.environ.get('PYVC_DEAD'):
+        for q, d in inlined_dead.items():
+            print(f'DEAD-IN-INLINED {q}: lines {d}')
     if os.environ.get('PYVC_DEAD'):
         for t, v in sorted(eng.dead_under_contract.items()):
             if any(v.values()) and all(v.values()):
@@ -395,6 +407,7 @@ def run_property(prop, tier, seed):
             'statements_no_feasible_path_reaches_under_the_contract': {
                 t: sorted(set.intersection(*[set(x) for x in v.values()])) for t, v in sorted(eng.dead_under_contract.items())
                 if v and set.intersection(*[set(x) for x in v.values()])},
+            'statements_of_inlined_callees_no_feasible_path_reaches': inlined_dead,
             'racy_reads': sorted(f'{a}:{b}@{c}' for a, b, c in eng.racy_reads),
             'vacuity': {'covers': sum(1 for o in obls if o.kind == 'cover'),
                         'must_fail_twins': sum(1 for o in obls if o.kind == 'twin'),
